@@ -322,7 +322,13 @@ func (c *Ctx) trieTraversals() {
 			c.R.Unresolved("topics." + x.typ + "." + x.fn)
 			continue
 		}
-		splits := c.calls(fn, pkgTopics, "", "nextTopicLevel")
+		// the splitter, or a wrapper that applies it to its own argument and hands its remainder through
+		var splits []ssa.CallInstruction
+		for _, call := range ir.Calls(fn) {
+			if f := call.Common().StaticCallee(); f != nil && c.isLevelSplitter(f) {
+				splits = append(splits, call)
+			}
+		}
 		okSplit := len(splits) == 1 && ir.SeeThrough(splits[0].Common().Args[0]) == ssa.Value(fn.Params[1])
 		// recursion continues with the remainder returned by the splitter
 		okRem := false
@@ -545,4 +551,41 @@ func (c *Ctx) endOfLevelsSignal() {
 			c.R.Bad(ruleT9, key, c.P.Pos(fn.Pos()), "the splitter returns an empty remainder after a trailing separator ("+emptyRem+") and "+x.fn+" ends its walk on len(topic) == 0: the empty last level of \"a/\" is dropped, so \"a/\" and \"a\" are the same filter / topic and \"a/+\" does not match \"a/\" (MQTT 4.7.1.1: empty levels are levels)")
 		}
 	}
+}
+
+// isLevelSplitter: f is nextTopicLevel or a wrapper (level, rem, err) := wrap(topic) that calls the splitter
+// on its own parameter and returns the splitter's remainder as its second result.
+func (c *Ctx) isLevelSplitter(f *ssa.Function) bool {
+	if f == nil || f.Pkg == nil || f.Pkg.Pkg.Path() != pkgTopics {
+		return false
+	}
+	if f.Name() == "nextTopicLevel" && f.Signature.Recv() == nil {
+		return true
+	}
+	if len(f.Params) != 1 || f.Signature.Results().Len() != 3 {
+		return false
+	}
+	var inner *ssa.Call
+	for _, call := range ir.Calls(f) {
+		if ir.IsFunc(call.Common(), pkgTopics, "nextTopicLevel") {
+			if cl, ok := call.(*ssa.Call); ok && ir.SeeThrough(cl.Common().Args[0]) == ssa.Value(f.Params[0]) {
+				inner = cl
+			}
+		}
+	}
+	if inner == nil {
+		return false
+	}
+	ok := false
+	for _, ret := range ir.Returns(f) {
+		if k, isK := ir.ReturnOperand(ret, 2).(*ssa.Const); !isK || !k.IsNil() {
+			continue
+		}
+		ex, isEx := ir.SeeThrough(ir.ReturnOperand(ret, 1)).(*ssa.Extract)
+		if !isEx || ex.Tuple != ssa.Value(inner) || ex.Index != 1 {
+			return false
+		}
+		ok = true
+	}
+	return ok
 }
